@@ -51,6 +51,10 @@ func replay(cw *caseWriter, path string) {
 			c11exec(cw, tag, in)
 		case 14:
 			c14replay(cw, tag, in)
+		case 8:
+			lsRun(cw, tag, in, false)
+		case 16:
+			c16exec(cw, tag, in)
 		case 1001, 1002, 1003, 1004, 1005, 1006, 1007, 1008, 1009, 1010, 1011, 1012:
 			res := runScenario(int(in[0]), in[1])
 			cw.emit(tag, comp, in, []uint64{uint64(res.events), uint64(res.leaders), uint64(res.acks), uint64(res.crashes), uint64(len(res.findings))}, true)
@@ -97,6 +101,16 @@ func main() {
 		runC12(cw, tier, seed)
 	case "c02":
 		runC02(cw, tier, seed)
+	case "c08":
+		runC08(cw, tier, seed)
+	case "c03":
+		runC03(cw, tier, seed)
+	case "c09":
+		runC09(cw, tier, seed)
+	case "c20":
+		runC20(cw, tier, seed)
+	case "c16":
+		runC16(cw, tier, seed)
 	case "c07":
 		runC07(cw, tier, seed)
 	case "c11":
@@ -110,7 +124,7 @@ func main() {
 		fmt.Println(c.monitor())
 	case "demo":
 		t0 := time.Now()
-		runScenarios(cw, 7, seed, 60, 12)
+		runScenarios(cw, 12, seed, 120, 12)
 		fmt.Println("elapsed", time.Since(t0))
 	default:
 		fmt.Fprintln(os.Stderr, "unknown component", comp)
